@@ -279,11 +279,136 @@ example : exS.build [0, 1] =
       structured "T" ["N"] [outC, buildScaled exP (structured "S" ["N"] [in2, in1, inT] [0, 1]) 2] [0, 1] := by
   simp [exS, exS', STree.build, sbuildL]
 
-/-- the portfolio around the two wrappers -/
-example := portfolio_varperm _ _
-  (PermRel.trans
-    (.cons (scaled_over_permuted_structure exP 2 "S" ["N"] _ _ inRot [0, 1] inWF inLocal inMapLocal).1
-      (.cons ⟨_, varperm_refl outC (by decide) (by decide)⟩ .nil))
-    (.swap _ outC [])) [0, 1] []
+/-- the portfolio around the two wrappers: hypotheses of the top-level list -/
+theorem exPortGood : ∀ a ∈ [buildScaled exP (structured "S" ["N"] [in1, inT, in2] [0, 1]) 2, outC],
+    WF [0, 1] a ∧ Local a ∧ MapLocal a := by
+  intro a ha
+  simp only [List.mem_cons, List.not_mem_nil, or_false] at ha
+  rcases ha with rfl | rfl
+  · obtain ⟨h1, h2, h3⟩ := structured_good "S" ["N"] [in1, inT, in2] [0, 1] inWF inLocal inMapLocal
+    exact scaled_good [0, 1] exP _ 2 h1 h2 h3
+  · exact ⟨outCWF.1, outCWF.2, by intro m hm; revert m hm; decide⟩
+
+example : ∃ σ : Nat → Nat, ∀ y : Vec,
+    ((assemble [outC, buildScaled exP (structured "S" ["N"] [in2, in1, inT] [0, 1]) 2] [0, 1] []).FeasibleRelaxed y ↔
+      (assemble [buildScaled exP (structured "S" ["N"] [in1, inT, in2] [0, 1]) 2, outC] [0, 1] []).FeasibleRelaxed
+        (fun j => y (σ j))) ∧
+    (assemble [outC, buildScaled exP (structured "S" ["N"] [in2, in1, inT] [0, 1]) 2] [0, 1] []).value y =
+      (assemble [buildScaled exP (structured "S" ["N"] [in1, inT, in2] [0, 1]) 2, outC] [0, 1] []).value
+        (fun j => y (σ j)) :=
+  portfolio_varperm _ _
+    (PermRel.trans
+      (.cons (scaled_over_permuted_structure exP 2 "S" ["N"] _ _ inRot [0, 1] inWF inLocal inMapLocal).1
+        (.cons ⟨_, varperm_refl outC (by decide) (by decide)⟩ .nil))
+      (.swap _ outC [])) [0, 1] []
+    (fun a ha => (exPortGood a ha).1) (fun a ha => (exPortGood a ha).2.1) (fun a ha => (exPortGood a ha).2.2)
+
+/-! ## why the relation has to be syntactic
+
+`Sim` of two base problems does not carry over to the scaled assets: the scaled wrapper reads which variables are
+capacity variables, their bounds and the right-hand sides — not the feasible set. -/
+
+/-- a supplier with capacity 5 … -/
+def wA : AssetProblem :=
+  { name := "a", nodes := ["N"], c := [0], l := [0], u := [5], rows := [],
+    mapping := [⟨0, "a", some "N", .d, 0, 1, false, "disp"⟩] }
+/-- … and the same supplier with the capacity written as a row against an auxiliary variable fixed to 1 -/
+def wB : AssetProblem :=
+  { name := "a", nodes := ["N"], c := [0, 0], l := [0, 1], u := [5, 1], rows := [⟨[(0, 1), (1, -5)], 0, .U⟩],
+    mapping := [⟨0, "a", some "N", .d, 0, 1, false, "disp"⟩] }
+
+theorem wFlow (A : AssetProblem) (hA : A.mapping = [⟨0, "a", some "N", .d, 0, 1, false, "disp"⟩]) (n : String) (t : Nat)
+    (y : Vec) : flowOf A n t y = if isDisp n t ⟨0, "a", some "N", .d, 0, 1, false, "disp"⟩ then y 0 * 1 else 0 := by
+  unfold flowOf
+  rw [hA]
+  by_cases h : isDisp n t ⟨0, "a", some "N", .d, 0, 1, false, "disp"⟩ = true
+  · simp only [List.filter_cons, h, if_true, List.filter_nil, List.map_cons, List.map_nil, List.sum_cons, List.sum_nil,
+      MapRow.contrib]
+    grind
+  · simp only [List.filter_cons, h, if_false, List.filter_nil, List.map_nil, List.sum_nil, Bool.false_eq_true]
+
+theorem wSim : Sim wA wB := by
+  constructor
+  · intro y hy
+    refine ⟨fun j => if j = 0 then y 0 else 1, ?_, ?_, ?_⟩
+    · obtain ⟨hb, _⟩ := hy
+      have h0 := hb 0 (by decide)
+      have e1 : wA.l.getD 0 0 = 0 := by decide +kernel
+      have e2 : wA.u.getD 0 0 = 5 := by decide +kernel
+      rw [e1, e2] at h0
+      constructor
+      · intro j hj
+        have hj' : j < 2 := hj
+        match j, hj' with
+        | 0, _ =>
+          have e3 : wB.l.getD 0 0 = 0 := by decide +kernel
+          have e4 : wB.u.getD 0 0 = 5 := by decide +kernel
+          rw [e3, e4]; exact h0
+        | 1, _ =>
+          have e3 : wB.l.getD 1 0 = 1 := by decide +kernel
+          have e4 : wB.u.getD 1 0 = 1 := by decide +kernel
+          rw [e3, e4]; simp
+      · intro r hr
+        simp only [wB, List.mem_cons, List.not_mem_nil, or_false] at hr
+        subst hr
+        simp only [Row.Sat, Row.eval, List.map_cons, List.map_nil, List.sum_cons, List.sum_nil]
+        simp
+        grind
+    · simp only [wA, wB, costAt]; grind
+    · intro n t
+      rw [wFlow wB rfl, wFlow wA rfl]
+      simp
+  · intro y hy
+    refine ⟨y, ?_, ?_, ?_⟩
+    · obtain ⟨hb, _⟩ := hy
+      have h0 := hb 0 (by decide)
+      constructor
+      · intro j hj
+        have hj' : j < 1 := hj
+        have : j = 0 := by omega
+        subst this
+        exact h0
+      · intro r hr; simp [wA] at hr
+    · simp only [wA, wB, costAt]; grind
+    · intro n t
+      rw [wFlow wB rfl, wFlow wA rfl]
+
+
+/-- the point "capacity doubled, dispatch 10" of the scaled supplier -/
+def wX : Vec := fun j => [10, 2].getD j 0
+
+theorem wScaledFeasible : (buildScaled exP wA 2).FeasibleRelaxed wX := by decide +kernel
+
+theorem wLen : 0 < (buildScaled exP wB 2).rows.length := by decide +kernel
+
+/-- **why the relation has to be syntactic**: `wA` and `wB` correspond semantically (`Sim`: same feasible dispatch,
+    cost, flows), the scaled assets over them do not — the scaled wrapper scales the bound `u = 5` of the dispatch
+    variable of `wA` but neither the bounds of the auxiliary variable of `wB` nor the matrix coefficient 5 -/
+theorem sim_not_enough_for_scaled :
+    Sim wA wB ∧ ¬ Sim (buildScaled exP wA 2) (buildScaled exP wB 2) := by
+  refine ⟨wSim, ?_⟩
+  rintro ⟨hf, _⟩
+  obtain ⟨y, ⟨hb, hr⟩, _, hfl⟩ := hf wX wScaledFeasible
+  have hsat := hr ((buildScaled exP wB 2).rows[0]'wLen) (List.getElem_mem _)
+  have hc : ((buildScaled exP wB 2).rows[0]'wLen).coeffs = [(0, 1), (1, -5), (2, 0)] := by
+    decide +kernel
+  have hk : ((buildScaled exP wB 2).rows[0]'wLen).kind = .U := by decide +kernel
+  have hrhs : ((buildScaled exP wB 2).rows[0]'wLen).rhs = 0 := by decide +kernel
+  unfold Row.Sat at hsat
+  rw [hk] at hsat
+  simp only [Row.eval, hc, hrhs, List.map_cons, List.map_nil, List.sum_cons, List.sum_nil] at hsat
+  have h1 := (hb 1 (by decide +kernel)).2
+  have e1 : (buildScaled exP wB 2).u.getD 1 0 = 1 := by decide +kernel
+  rw [e1] at h1
+  have h2 := hfl "N" 0
+  have e2 : flowOf (buildScaled exP wA 2) "N" 0 wX = 10 := by decide +kernel
+  have hm : (buildScaled exP wB 2).mapping =
+      [⟨0, "sc", some "N", .d, 0, 1, false, "disp"⟩, ⟨2, "sc", some "N", .other "size", 0, 1, false, "scale"⟩] := by
+    decide +kernel
+  rw [e2] at h2
+  unfold flowOf at h2
+  rw [hm] at h2
+  simp [isDisp, MapRow.contrib] at h2
+  grind
 
 end EAO.C09S
